@@ -7,11 +7,16 @@ an error is recorded — there is no branch that substitutes a default (0, clamp
 placeholder) silently (`no_silent_*`). With C06 `all_or_nothing` an error means no message.
 The conversion routines are the models of strconv.ParseInt/ParseUint/ParseFloat (Model/Strconv,
 Model/FloatLib: library behaviour, cross-checked against the Go standard library on every run);
-for decimal literals the denotation is proved outright (`decimal_denotes`).
+the denotation of every INTEGER literal form is proved outright: hexadecimal `0x`/`0X`, binary
+`0b`/`0B`, octal `0o`/`0O` and the leading-zero spelling, decimal, each with an optional sign —
+ParseUint/ParseInt with base 0 return exactly the number the digits denote in that base when it
+fits the item's width (`literals_denote_unsigned`, `literals_denote_signed`, `decimal_denotes`).
+Float literals: ParseFloat is a library parameter (cross-checked), not proved.
 ASCII items: characters are taken as written between the quotes, character codes must be below
 128, anything else records an error (`ascii_*`).
 -/
 import SecsModel.Proofs.Decimal
+import SecsModel.Proofs.Literals
 import SecsModel.Model.Parser
 import SecsModel.Generated.Facts
 namespace Secs.C05
@@ -107,6 +112,24 @@ theorem wrong_kind_is_error (ty : Bytes) (w : Nat) (t : Tok) (r : List Tok) (s :
 
 /-- a decimal literal denotes its number: Atoi of the decimal digits of n is n (n < 2^63) -/
 theorem decimal_denotes (n : Nat) (h : n < 2 ^ 63) : atoi (decDigits n) = ⟨n, none⟩ := atoi_decDigits n h
+
+/-- every unsigned integer literal form denotes the number its digits spell in its base
+(`litVal`), and that is what ParseUint with base 0 returns when it fits `bits` bits -/
+theorem literals_denote_unsigned (bits : Nat) (c : Nat) (r : Bytes) (value : Nat)
+    (hfit : value ≤ 2 ^ (if (bits == 0) = true then 64 else bits) - 1) :
+    (∀ x, (x = 120 ∨ x = 88) → digitsOf 16 (c :: r) → litVal 16 (c :: r) = value → parseUint (48 :: x :: c :: r) 0 bits = ⟨value, none⟩) ∧
+    (∀ x, (x = 98 ∨ x = 66) → digitsOf 2 (c :: r) → litVal 2 (c :: r) = value → parseUint (48 :: x :: c :: r) 0 bits = ⟨value, none⟩) ∧
+    (∀ x, (x = 111 ∨ x = 79) → digitsOf 8 (c :: r) → litVal 8 (c :: r) = value → parseUint (48 :: x :: c :: r) 0 bits = ⟨value, none⟩) ∧
+    (digitsOf 8 (c :: r) → litVal 8 (c :: r) = value → parseUint (48 :: c :: r) 0 bits = ⟨value, none⟩) ∧
+    (49 ≤ c ∧ c ≤ 57 → digitsOf 10 (c :: r) → litVal 10 (c :: r) = value → parseUint (c :: r) 0 bits = ⟨value, none⟩) :=
+  uint_literal_denotes bits c r value hfit
+
+/-- … and with a sign in front: `+v` and `v` when v < 2^(bits-1), `-v` when v ≤ 2^(bits-1) -/
+theorem literals_denote_signed (u : Bytes) (bits B v : Nat) (hB : (if (bits == 0) = true then 64 else bits) = B)
+    (hu : parseUint u 0 bits = ⟨v, none⟩) (hne : u ≠ []) (hfirst : ∀ c r, u = c :: r → c ≠ 43 ∧ c ≠ 45) :
+    (v < 2 ^ (B - 1) → parseInt u 0 bits = ⟨v, none⟩ ∧ parseInt (43 :: u) 0 bits = ⟨v, none⟩) ∧
+    (v ≤ 2 ^ (B - 1) → parseInt (45 :: u) 0 bits = ⟨-(v : Int), none⟩) :=
+  int_literal_denotes u bits B v hB hu hne hfirst
 
 /-- ASCII: the characters between the quotes are taken as they are written -/
 theorem ascii_quoted_exact (mn mx : Int) (n : Nat) (t : Tok) (lit : Bytes) (s : PS) (hk : t.kind = .quoted)
